@@ -41,7 +41,7 @@ ASSUMPTIONS = [
     "every Fock-state pair coupled within K x (word degree) shifts is non-degenerate with |dE| >= 1/4 (constructed and verified by enumeration)",
     "comparison restricted to input states at least K x degree + 1 away from the truncation edge",
 ]
-REQUIRED_CLASSES = {"all": ["modes>=2", "has-fermion", "has-boson", "form=scalar", "form=blocks", "interaction"]}
+REQUIRED_CLASSES = {"all": ["modes>=2", "has-fermion", "has-boson", "form=scalar", "form=blocks", "interaction", "operator-mask", "matrix-valued-mask"]}
 
 MODE_SETS = [
     [["b", "a"]], [["b", "a"], ["s", "s"]], [["f", "f"], ["f", "g"]], [["b", "a"], ["f", "f"]], [["f", "f"], ["f", "g"], ["f", "h"]],
@@ -69,7 +69,9 @@ def _case(draw, tier):
     return {
         "modes": modes, "K": K, "words": words, "freq_order": list(perm),
         "interaction": draw(st.sampled_from([None, None, "kerr", "cross"])),
-        "form": draw(st.sampled_from(["scalar", "scalar", "matrix1", "blocks"])),
+        "form": draw(st.sampled_from(["scalar", "scalar", "matrix1", "blocks", "matrix2mask"])),
+        # operator-valued elimination mask: eliminate only the shifts of these perturbation words (and their adjoints)
+        "mask_words": sorted(draw(st.sets(st.integers(0, n_words - 1), min_size=1))) if draw(st.integers(0, 2)) == 0 else None,
     }
 
 
@@ -169,7 +171,24 @@ def build(case):
         has_inter = True
     W = sum(_word_expr(w, ops, NumberOperator) for w in words)
     H1 = W + Dagger(W)
-    return {"ops": ops, "kinds": kinds, "H0": H0, "H1": H1, "cutoff": cutoff, "degree": degree, "energy": energy, "interaction": has_inter, "reach": reach}
+    # operator mask: sum of the pure ladder monomials of the chosen shifts and of their adjoints
+    mask_expr, eliminated = None, None
+    if (case.get("mask_words") and case["form"] in ("scalar", "matrix1")) or case["form"] == "matrix2mask":
+        chosen_shifts = {_shift(words[q], len(ops)) for q in (case.get("mask_words") or [0]) if q < len(words)}
+        chosen_shifts = {s_ for s_ in chosen_shifts if any(s_) and all(abs(x) <= 1 or kinds[q] in ("b", "l") for q, x in enumerate(s_))}
+        if chosen_shifts:
+            eliminated = chosen_shifts | {tuple(-x for x in s_) for s_ in chosen_shifts}
+            mask_expr = sympy.Integer(0)
+            for s_ in sorted(eliminated):
+                mono = sympy.Integer(1)
+                for op, x in zip(ops, s_):
+                    if x > 0:
+                        mono = mono * Dagger(op) ** x
+                for op, x in zip(reversed(ops), reversed(s_)):
+                    if x < 0:
+                        mono = mono * op ** (-x)
+                mask_expr = mask_expr + mono
+    return {"mask_expr": mask_expr, "eliminated": eliminated,"ops": ops, "kinds": kinds, "H0": H0, "H1": H1, "cutoff": cutoff, "degree": degree, "energy": energy, "interaction": has_inter, "reach": reach}
 
 
 def check_case(case, enforce_all=False):
@@ -207,15 +226,30 @@ def check_case(case, enforce_all=False):
     try:
         with warnings.catch_warnings():
             warnings.simplefilter("ignore")
+            mk = {} if b["mask_expr"] is None else {"fully_diagonalize": b["mask_expr"] if form == "scalar" else sympy.Matrix([[b["mask_expr"]]])}
+            if mk:
+                out.labels.append("operator-mask")
             if form == "scalar":
-                Ht, U, Ui = block_diagonalize([H0, H1])
+                Ht, U, Ui = block_diagonalize([H0, H1], **mk)
                 pick = lambda x: x  # noqa: E731
                 idx = (0, 0)
             elif form == "matrix1":
-                Ht, U, Ui = block_diagonalize([sympy.Matrix([[H0]]), sympy.Matrix([[H1]])])
+                Ht, U, Ui = block_diagonalize([sympy.Matrix([[H0]]), sympy.Matrix([[H1]])], **mk)
                 pick = lambda x: x if (x is zero or x is one) else x[0, 0]  # noqa: E731
                 idx = (0, 0)
+            elif form == "matrix2mask" and b["mask_expr"] is not None:
+                # ONE block whose elements are 2x2 operator matrices; the mask only has off-diagonal entries
+                delta = sympy.Rational(405, 32)
+                h0 = sympy.Matrix([[H0, 0], [0, H0 + delta]])
+                h1 = sympy.Matrix([[H1, H1], [H1, -H1]])
+                mk = {"fully_diagonalize": sympy.Matrix([[0, b["mask_expr"]], [b["mask_expr"], 0]])}
+                out.labels.append("operator-mask")
+                out.labels.append("matrix-valued-mask")
+                Ht, U, Ui = block_diagonalize([h0, h1], **mk)
+                pick = None
+                idx = (0, 0)
             else:
+                form = "blocks"
                 # two copies with shifted energies as two blocks, coupled by the perturbation
                 delta = sympy.Rational(405, 32)
                 h0 = sympy.Matrix([[H0, 0], [0, H0 + delta]])
@@ -225,7 +259,13 @@ def check_case(case, enforce_all=False):
                 idx = None
             lib = {}
             for n in range(K + 1):
-                if form == "blocks":
+                if form == "matrix2mask":
+                    hv, uv = Ht[0, 0, n], U[0, 0, n]
+                    lib[n] = {(i, j): ((hv if (hv is zero or hv is one) else hv[i, j]), (uv if uv is zero else (one if (uv is one and i == j) else zero if uv is one else uv[i, j]))) for i in range(2) for j in range(2)}
+                    for (i, j), (hh, uu) in list(lib[n].items()):
+                        if hh is one:
+                            lib[n][(i, j)] = (one if i == j else zero, uu)
+                elif form == "blocks":
                     lib[n] = {(i, j): (pick(Ht[i, j, n]), pick(U[i, j, n])) for i in range(2) for j in range(2)}
                 else:
                     lib[n] = {(0, 0): (pick(Ht[0, 0, n]), pick(U[0, 0, n]))}
@@ -247,17 +287,33 @@ def check_case(case, enforce_all=False):
     E0 = np.array([float(b["energy"](space.occ(s))) for s in space.states])
     if float(np.abs(np.diag(H0m).real - E0).max()) > 1e-9:
         raise AssertionError("matrix model: H_0 is not the diagonal of the constructed energies")
-    if form == "blocks":
+    if form in ("blocks", "matrix2mask"):
         E = np.concatenate([E0, E0 + 405 / 32])
         T = np.block([[H1m, H1m], [H1m, -H1m]])
         S = np.zeros((2 * D, 2 * D), dtype=bool)
         S[:D, :D] = True
         S[D:, D:] = True
         nblk = 2
+        if form == "matrix2mask":
+            # everything is kept except the masked shifts in the off-diagonal matrix entries
+            occ = np.array([space.occ(st_) for st_ in space.states])
+            elim = np.zeros((D, D), dtype=bool)
+            for s_ in b["eliminated"]:
+                diff = occ[:, None, :] - occ[None, :, :]
+                elim |= np.all(diff == np.array(s_)[None, None, :], axis=2)
+            S[:D, D:] = ~elim
+            S[D:, :D] = ~elim
     else:
         E, T = E0, H1m
         S = np.eye(D, dtype=bool)
         nblk = 1
+        if b["eliminated"] is not None:
+            # selective elimination: everything is kept except the pairs of Fock states connected by a masked shift
+            occ = np.array([space.occ(st_) for st_ in space.states])
+            S = np.ones((D, D), dtype=bool)
+            for s_ in b["eliminated"]:
+                diff = occ[:, None, :] - occ[None, :, :]
+                S &= ~np.all(diff == np.array(s_)[None, None, :], axis=2)
     dE = E[:, None] - E[None, :]
     S = S | (np.abs(dE) < 1e-12)  # exactly degenerate pairs are never coupled within reach: keep them
     try:
@@ -299,7 +355,7 @@ def check_case(case, enforce_all=False):
                 if n >= 2 and boundary_cols and float(np.abs(B[:, [list(safe).index(c) for c in boundary_cols]]).max()) > 1e-9:
                     nontrivial_hit = True
     # ------------------------------------------------------------ operator identities through the model
-    if form != "blocks":
+    if form not in ("blocks", "matrix2mask"):
         Um = [mats[("U", 0, 0, n)] for n in range(K + 1)]
         Hm = [from_orth(np.diag(E0).astype(complex)), from_orth(H1m)]
         inner = space.safe((K + 1) * b["degree"] + 1)
